@@ -481,7 +481,7 @@ def scandat(repofiles):
         lines = fp.readlines()
         fp.close()
         for line in reversed(lines):
-            fn, startpos, endpos, sum = line.split()
+            fn, startpos, endpos, sum = line.rsplit(None, 3)
             startpos = int(startpos)
             endpos = int(endpos)
             if endpos > startpos:
@@ -708,7 +708,7 @@ def do_recover(options):
             with open(datfile) as fp:
                 truth_dict = {}
                 for line in fp:
-                    fn, startpos, endpos, sum = line.split()
+                    fn, startpos, endpos, sum = line.rsplit(None, 3)
                     startpos = int(startpos)
                     endpos = int(endpos)
                     filename = os.path.join(options.repository,
@@ -775,7 +775,7 @@ def do_verify(options):
                     options.repository, fname))
     with open(datfile) as fp:
         for line in fp:
-            fn, startpos, endpos, sum = line.split()
+            fn, startpos, endpos, sum = line.rsplit(None, 3)
             startpos = int(startpos)
             endpos = int(endpos)
             filename = os.path.join(options.repository,
